@@ -1,5 +1,6 @@
 import LinOp.Core.Parse
 import LinOp.C20.Model
+import LinOp.C20.Model2
 /-! Line-protocol driver for the C20 kernel models (exact rationals).
 Tensors travel as `shape|values` (row-major), sparse tensors as `shape|indices|values`
 (indices entry-major: nnz × ndim).  Output: `T shape|values`, `V value`, or `ERR <exception class>`. -/
@@ -78,6 +79,22 @@ def run (ws : List String) : Option String :=
     let c ← parseTn? c; let r ← parseTn? r
     let i ← i.toNat?; let j ← j.toNat?
     pure ("V " ++ showRat (toeplitzGetitem (vecOf c) (vecOf r) i j))
+  | ["tgetitemz", c, r, i, j] => do
+    let c ← parseTn? c; let r ← parseTn? r
+    let i ← i.toInt?; let j ← j.toInt?
+    match toeplitzGetitemZ (c.shape.getD 0 0) (vecOf c) (vecOf r) i j with
+    | .ok v => pure ("V " ++ showRat v)
+    | .error e => pure ("ERR " ++ e)
+  | ["bdsmmflat", s, d] => do
+    let s ← parseSp? s; let d ← parseTn? d
+    match bdsmmFlat s d with
+    | .error e => pure ("ERR " ++ e)
+    | .ok f =>
+      -- one vector: shape and dense content of `sparse_2d`, then shape and content of `dense_2d`
+      let sv := (allIdx f.sparse2d.shape).map (densify f.sparse2d.ents)
+      let dv := (allIdx f.dense2d.shape).map f.dense2d.get
+      let vals : List Q := f.sparse2d.shape.map (fun (n : Nat) => (mkRat n 1 : Q)) ++ sv ++ f.dense2d.shape.map (fun (n : Nat) => (mkRat n 1 : Q)) ++ dv
+      pure ("T " ++ toString vals.length ++ "|" ++ showList showRat vals)
   | ["tmatmul", f, c, r, x] => do
     let c ← parseTn? c; let r ← parseTn? r; let x ← parseTn? x
     pure (showE (toeplitzMatmul (f = "1") c r x))
@@ -127,10 +144,7 @@ def run (ws : List String) : Option String :=
     pure (showE (applyPerm k l r))
   | ["invperm", p] => do
     let p ← parseTn? p
-    let n := p.shape.getD (p.shape.length - 1) 0
-    let res : Tn Nat := ⟨p.shape, fun idx =>
-      inversePermCore n (fun a => (p.get (idx.dropLast ++ [a])).num.toNat) (idx.getD (idx.length - 1) 0)⟩
-    pure (showNatTn res)
+    pure (showNatTn (inversePerm (toNatTn p)))
   | ["stableqr", f, r] => do
     let r ← parseTn? r
     let k := min (r.shape.getD 0 0) (r.shape.getD 1 0)
